@@ -19,7 +19,8 @@ MINIMUM = {'R12.1': 2, 'R12.2': 2, 'R12.3': 4, 'R12.4': 1, 'R12.5': 1}
 # (evaluated by the sibling module on the same graphs, reported under this property)
 ALSO = {'C03': {'R03.1': ('the subject matched is the decoded Path as it is', 'rm')},
  'C09': {'R09.3': ('trash-rm removes the payload and the .trashinfo of one and the same entry',
-                   'rm ')},
+                   'rm '),
+         'R09.5': ('trash-rm looks into every trash directory of a volume', 'rm:')},
  'C15': {'R15.3': 'payload and .trashinfo of a match go together: the info is removed last'},
  'C19': {'R19.1': ('an unreadable entry must not stop the matching of the others', 'rm:')}}
 
